@@ -193,10 +193,11 @@ StringDictionaryHHTFC::StringDictionaryHHTFC(IteratorDictString *it,
             ptrSubstr = TABLEBITSO;
           } else {
             if (current == elements) {
-              // The last element is directly padded
+              // The last element is directly padded (nothing is left to read
+              // ahead: the loop below does not run and the substring is
+              // inserted as for any other header)
               codeSubstr = (codeSubstr << (TABLEBITSO - ptrSubstr));
               ptrSubstr = TABLEBITSO;
-              break;
             }
 
             uint read = 0;
